@@ -44,6 +44,9 @@ def x_alph_confirm():
     ap = re.search(r'^const AttestTokenPayloadId\s*=\s*(\d+)\s*$', u, re.M)
     if not wi or not tp or not ap:
         raise Broken("utils.go: WormholeMessageEventIndex / payload id constants not found")
+    for fn, cst in (("IsAttestTokenVAA", "AttestTokenPayloadId"), ("IsTransferTokenVAA", "TransferTokenPayloadId")):
+        if not re.search(r'func \(w \*WormholeMessage\) %s\(\) bool \{\s*return len\(w\.payload\) > 0 && w\.payload\[0\] == %s\s*\}' % (fn, cst), u):
+            raise Broken("utils.go: %s is not `len(payload) > 0 && payload[0] == %s`" % (fn, cst))
     if not re.search(r'func maxUint8\(a, b uint8\) uint8 \{\s*if a > b \{\s*return a\s*\}\s*return b\s*\}', u):
         raise Broken("utils.go: maxUint8 is not max")
     ic = func_body(src, r'^func isEventConfirmed\(', "isEventConfirmed")
@@ -140,6 +143,14 @@ def x_alph_reobserve():
              r'events, err := w\.getGovernanceEventsByTxId\(ctx, logger, client, w\.governanceContractAddress, blockHash, txId\)',
              r'isCanonical, err := client\.IsBlockInMainChain\(ctx, blockHash\)', r'if !\*isCanonical \{', r'currentHeight, err := w\.client\.GetCurrentHeight\(ctx, w\.chainIndex\)',
              r'for _, event := range events \{', r'w\.handleGovernanceMessages\(logger, confirmed\)']
+    v = rd("node/pkg/vaa/structs.go")
+    cid = re.search(r'^\s*ChainIDAlephium ChainID = (\d+)\s*$', v, re.M)
+    if not cid:
+        raise Broken("vaa/structs.go: ChainIDAlephium not found")
+    rq = re.search(r'case req := <-w\.obsvReqC:\s*\n\s*if req\.ChainId != uint32\(vaa\.ChainIDAlephium\) \{\s*\n[^\n]*\n\s*continue\s*\}\s*'
+                    r'if len\(req\.TxHash\) != (\d+) \{\s*\n[^\n]*\n\s*continue\s*\}\s*txId := hex\.EncodeToString\(req\.TxHash\[0:\1\]\)', ho)
+    if not rq:
+        raise Broken("handleObsvRequest: chain id / tx hash length tests not found")
     pos = 0
     for pat in order:
         m = re.compile(pat).search(ho, pos)
@@ -175,8 +186,10 @@ def x_alph_reobserve():
            "Definition alph_reobs_addr_filter : bool := %s.\nDefinition alph_reobs_block_filter : bool := %s.\n"
            "(* handleObsvRequest applies isEventConfirmed (height and wall clock); otherwise only `Height+level %s currentHeight` *)\n"
            "Definition alph_reobs_wallclock : bool := %s.\nDefinition alph_reobs_height_ok (sum cur : Z) : bool := sum %s cur.\n"
-           % ("true" if addr else "false", "true" if blk else "false", hop, wall, CMP[hop]))
-    return out, {"address_filter": addr, "block_filter": blk, "wallclock": wall == "true"}
+           "(* handleObsvRequest handles only requests for chain id vaa.ChainIDAlephium with a tx hash of this many bytes *)\n"
+           "Definition alph_chain_id : Z := %s.\nDefinition alph_txid_len : Z := %s.\n"
+           % ("true" if addr else "false", "true" if blk else "false", hop, wall, CMP[hop], cid.group(1), rq.group(1)))
+    return out, {"address_filter": addr, "block_filter": blk, "wallclock": wall == "true", "chain_id": int(cid.group(1)), "txid_len": int(rq.group(1))}
 
 
 EXTRACTORS = [("alph_confirm", x_alph_confirm), ("alph_poll", x_alph_poll), ("alph_tokeninfo", x_alph_tokeninfo), ("alph_reobserve", x_alph_reobserve)]
